@@ -43,6 +43,19 @@ Theorem C05_unmarshal_signature_wellformed :
 Proof. exact unmarshal_signature_wellformed. Qed.
 Print Assumptions C05_unmarshal_signature_wellformed.
 
+Theorem C05_unmarshal_signmsg_wellformed :
+  forall data m,
+  unmarshal_signmsg data = Acc m ->
+  exists p u pl ws items,
+    data = 216 :: 98 :: ser (WArr W0 [p; u; pl; WArr ws items]) /\
+    wf (WArr W0 [p; u; pl; WArr ws items]) = true /\
+    notags (WArr W0 [p; u; pl; WArr ws items]) = true /\
+    bstr_or_nil pl = Acc (sm_payload m) /\ items <> [] /\
+    dec_headers p u = Acc (sm_h m) /\
+    exists sigs, mapM dec_signature_item items = Acc sigs /\ sm_sigs m = map Some sigs.
+Proof. exact unmarshal_signmsg_wellformed. Qed.
+Print Assumptions C05_unmarshal_signmsg_wellformed.
+
 (* every layer: protected bstr empty or one map, unprotected a map, rules checked, IV split *)
 Theorem C05_dec_headers_inv :
   forall p u h,
